@@ -10,6 +10,7 @@ A violation is a dict {"prop": "C02", "rule": short name, "msg": text}.
 """
 from fractions import Fraction
 
+import json
 import progs
 
 START_TASK = "productionTask"
@@ -806,6 +807,13 @@ def acceptance(case, calls, flat, stats):
                 out.append({"prop": "C08", "rule": "accept_iff", "msg": "call %d %r returned %r, expected %r (service %r %s)"
                             % (ci, op, c["ret"], expect, ident, "outstanding" if expect else "not outstanding")})
                 # the identifier a service is announced with is the identifier its completion is accepted under - once
+                if expect:
+                    # the run cannot go on from here: the statement (branch, loop instance) this service belongs to never completes
+                    txt = json.dumps(case.get("prog"))
+                    for pr in ["C01", "C02"] + (["C03"] if '"k": "par"' in txt else []) + (["C06"] if '"k": "ploop"' in txt else []):
+                        out.append({"prop": pr, "rule": "outstanding_completion_refused",
+                                    "msg": "call %d %r: the completion of the announced, outstanding service %r is refused: the statement it belongs to can never complete"
+                                    % (ci, op, ident)})
                 out.append({"prop": "C14", "rule": "announced_id_not_accepted" if expect else "id_accepted_again",
                             "msg": "call %d %r: the completion of the service announced as %r returned %r (%s)"
                             % (ci, op, ident, c["ret"], "it is outstanding" if expect else "it is not outstanding any more")})
@@ -848,7 +856,7 @@ def completion(case, calls, flat, stats):
     out = []
     for ci, c in enumerate(calls):
         if c.get("stale_var"):
-            for p in ("C04", "C05", "C13"):
+            for p in ("C04", "C05", "C13", "C06"):
                 out.append({"prop": p, "rule": "stale_access_function", "msg": "call %d %r: %s" % (ci, c["op"], c["stale_var"][0])})
             break
     # from an accepted start() on, every callback of the order (notification, variable query) sees running == True
